@@ -98,7 +98,11 @@ func (sv *Solver) solve(name, script string, modelTerms []string, wantSat bool) 
 		t  int
 	}{{solvers[0], sv.quickT}, {solvers[2], sv.quickT}, {solvers[1], sv.quickT}, {solvers[0], sv.longT}, {solvers[2], sv.longT}}
 	if wantSat {
-		stages = stages[:1]
+		// vacuity guards: a short attempt is enough (unsat is what matters, and it is found quickly)
+		stages = []struct {
+			sp solverSpec
+			t  int
+		}{{solvers[0], 3}}
 	}
 	for _, st := range stages {
 		a, o, el := runSolver(st.sp, file, st.t)
